@@ -126,6 +126,37 @@ fn run_line(line: &str) -> String {
             catch(move || match rbpf::EbpfVmMbuff::new(Some(&p)) { Ok(_) => "ok".into(), Err(_) => "err".into() }) }
         "exec" => run_exec(&toks),
         "api" => api::run(&toks),
+        // the built-in helpers that exist without `std` (gather_bytes, memfrob, strcmp), same formats as the std harness' suite `helper`
+        "helper" if toks.len() >= 2 => {
+            let t: Vec<String> = toks.iter().map(|s| s.to_string()).collect();
+            catch(move || {
+                let u = |s: &str| u64::from_str_radix(s, 16).ok();
+                match t[1].as_str() {
+                    "gather" if t.len() == 7 => {
+                        let v: Option<Vec<u64>> = t[2..7].iter().map(|s| u(s)).collect();
+                        let Some(v) = v else { return "bad-op".into() };
+                        format!("ok {:016x}", rbpf::helpers::gather_bytes(v[0], v[1], v[2], v[3], v[4]))
+                    }
+                    "memfrob" if t.len() == 5 => {
+                        let (Some(mut b), Some(off), Some(len)) = (unhex(&t[2]), u(&t[3]), u(&t[4])) else { return "bad-op".into() };
+                        if len > 0 && off + len > b.len() as u64 { return "precondition".into(); }
+                        let r = rbpf::helpers::memfrob(b.as_mut_ptr() as u64 + off, len, 1, 2, 3);
+                        format!("ok {:016x} {}", r, hex(&b))
+                    }
+                    "strcmp" if t.len() == 4 => {
+                        let get = |s: &str| -> Option<Option<Vec<u8>>> { if s == "null" { Some(None) } else { unhex(s).map(Some) } };
+                        let (Some(a), Some(b)) = (get(&t[2]), get(&t[3])) else { return "bad-op".into() };
+                        let p = |x: &Option<Vec<u8>>| x.as_ref().map(|v| v.as_ptr() as u64).unwrap_or(0);
+                        if a.is_some() && b.is_some() {
+                            let (x, y) = (a.as_ref().unwrap(), b.as_ref().unwrap());
+                            let mut i = 0; loop { if i >= x.len() || i >= y.len() { return "precondition".into(); } if x[i] != y[i] || x[i] == 0 { break; } i += 1; }
+                        }
+                        format!("ok {:016x}", rbpf::helpers::strcmp(p(&a), p(&b), 0, 0, 0))
+                    }
+                    _ => "bad-op".into(),
+                }
+            })
+        }
         _ => "bad-op".into(),
     }
 }
